@@ -416,15 +416,16 @@ Proof. exact (conj (proj1 ex_dac3_ok) (conj (proj1 (proj2 ex_dac3_ok)) ex_dec3_o
 
 (* what the ghost guards of leaf_guard exclude is really NOT reproduced -- one witness each, replayed on the real code by the search:
    wvtt cut inside its eight prefix bytes (12 bytes in, 16 out); an esds size field of eleven bytes overflowing readSizeSize's
-   uint64 (C01-K77); the reserved byte of a seig entry of sgpd (C01-K58); a dac3 payload of two bytes (C01-K73); a reserved bit
-   of a dec3 substream (C01-K58) *)
+   uint64 (C01-K77); a dac3 payload of two bytes (C01-K73); a reserved bit of a dec3 substream (C01-K58).  sgpd has NO guard any
+   more: the reserved byte of a seig entry is a captured chunk (stable_sgpd replays the entry loop on the zeroed bytes), an input
+   with such a byte (0x55) is exact -- inside C01_fixpoint -- and its only reason is that byte (C01-K58) *)
 Theorem C01_guards_refuted :
   (decode ex_wvtt_short = Ok (treeof ex_wvtt_short, [0; 0; 0; 0]) /\ exact_box (treeof ex_wvtt_short) = false /\
    leaf_guard (LWvtt 0 true) = false /\ lenN ex_wvtt_short = 12 /\
    match encode_w (treeof ex_wvtt_short) with Ok enc => lenN enc = 16 | _ => False end) /\
   refutes w_esds_overflow [(n_esds, RGuard); (n_esds, RRsv false 2)] /\
-  refutes w_sgpd_seig_rsv [(n_sgpd, RGuard); (n_sgpd, RRsv true 0)] /\
+  (refutes w_sgpd_seig_rsv [(n_sgpd, RRsv true 0)] /\ exact_box (treeof w_sgpd_seig_rsv) = true) /\
   refutes w_dac3_short [(n_dac3, RSizeSmall); (n_dac3, RGuard)] /\
   refutes w_dec3_rsv [(n_dec3, RGuard)].
-Proof. exact (conj wvtt_short_refuted (conj esds_overflow_refuted (conj sgpd_seig_rsv_refuted (conj dac3_short_refuted dec3_rsv_refuted)))). Qed.
+Proof. exact (conj wvtt_short_refuted (conj esds_overflow_refuted (conj (conj sgpd_seig_rsv_refuted (proj1 sgpd_seig_rsv_exact)) (conj dac3_short_refuted dec3_rsv_refuted)))). Qed.
 Print Assumptions C01_guards_refuted.
